@@ -12,6 +12,7 @@ import ASV.Proofs.ParallelSpec
 import ASV.Proofs.ParallelState
 import ASV.Proofs.ParallelWorkers
 import ASV.Proofs.ParallelPickle
+import ASV.Proofs.ParallelFilters
 namespace ASV.C18
 open ASV ASV.Parallel
 
@@ -411,6 +412,48 @@ example : parallelFunctionWire (rebuiltWrapped ([] : List String)) (rebuiltWrapp
                some ⟨["AC"], ["r2"], ["r2"], ["d"], [], [], [], []⟩] := by decide
 example : storedInSlot "_record" = true ∧ storedInSlot "annotations" = false ∧ storedInSlot "id" = false := by
   decide
+
+/-! ### the parent-side filters of `pre_process_sequences` (by name, minimum length, count) -/
+
+/-- the three filters only ever write skip flags: the records, their order, ids and lengths that go
+    on to the second trip through `parallel_function` are those that came back from the first -/
+theorem parent_filters_keep_ids_and_order (target : String) (minlength : Nat) (maximum : Int)
+    (rs out : List FRec) (hit : Bool) (h : parentFilters target minlength maximum rs = .ok (out, hit)) :
+    out.map (fun r => (r.id, r.len)) = rs.map (fun r => (r.id, r.len)) := by
+  unfold parentFilters at h
+  cases hn : filterByName target rs with
+  | error e => rw [hn] at h; cases h
+  | ok rs₁ =>
+    rw [hn] at h
+    simp only [Except.ok.injEq] at h
+    have h1 := filterByName_ids target rs rs₁ hn
+    have h2 := filterByMinLength_ids minlength rs₁
+    have h3 := filterByCount_ids maximum (filterByMinLength minlength rs₁)
+    rw [h] at h3
+    rw [h3, h2, h1]
+
+/-- `--limit-to-record`: afterwards every record that is not skipped bears the requested id -/
+theorem filter_by_name_only_target (target : String) (rs out : List FRec) (hne : target.isEmpty = false)
+    (h : filterByName target rs = .ok out) : ∀ r ∈ out, r.id = target ∨ truthy r.skip = true :=
+  filterByName_only_target target rs out hne h
+
+/-- `--limit -1`, or a limit above the number of records, changes nothing and is not "hit" -/
+theorem filter_by_count_unlimited (maximum : Int) (rs : List FRec)
+    (h : maximum = -1 ∨ maximum > rs.length) : filterByCount maximum rs = (rs, false) := by
+  unfold filterByCount
+  have : (maximum = -1 || decide (maximum > (rs.length : Int))) = true := by
+    rcases h with h | h <;> simp [h]
+  simp [this]
+
+/-- limit 2 of four records (one already skipped): the two longest meaningful ones stay, ties by
+    position; the limit is reported as hit -/
+example : filterByCount 2 [⟨"a", 50, none⟩, ⟨"b", 90, some "x"⟩, ⟨"c", 70, none⟩, ⟨"d", 50, none⟩, ⟨"e", 70, none⟩] =
+    ([⟨"a", 50, some "skipping all but largest 2 meaningful records (--limit) "⟩, ⟨"b", 90, some "x"⟩,
+      ⟨"c", 70, none⟩, ⟨"d", 50, some "skipping all but largest 2 meaningful records (--limit) "⟩,
+      ⟨"e", 70, none⟩], true) := by decide
+example : filterByName "zz" [⟨"a", 5, none⟩] = .error "AntismashInputError" := rfl
+example : filterByMinLength 10 [⟨"a", 9, none⟩, ⟨"b", 10, none⟩] =
+    [⟨"a", 9, some "smaller than minimum length (10)"⟩, ⟨"b", 10, none⟩] := by decide
 
 /-! ### the worker functions of `pre_process_sequences` (pure functions of the record) -/
 
